@@ -50,12 +50,22 @@ theorem irem_truncates (x y : Int) (hy : y ≠ 0) : irem x y = .ok (Int.tmod x y
     that `Spec.IRArith` defines (`+ - * / % << >> & | ^`) and all in-range operands: whenever the IR
     operation is defined with value `v`, the statements `gen_binop` emits leave `v` in the result
     variable and raise no Python exception. -/
-theorem binop_exact (t : Ty) (op : Spec.IR.BinOp) (o : Op) (ho : op.arith? = some o) (a b v : Int)
+theorem binop_exact_partial (t : Ty) (op : Spec.IR.BinOp) (o : Op) (ho : op.arith? = some o) (a b v : Int)
     (ha : InRange t a) (hb : InRange t b) (h : binop t o a b = some v) :
     (binopPlan (.int t) op).exec a b = .ok v := Proofs.IrPy.binop_exact t op o ho a b v ha hb h
 
+/-- the statement without the guard `op.arith? = some o`, i.e. including `rol`/`ror`: it is FALSE for the
+    current code (open finding `ir2py:generate:SyntaxError:rol`, witness below) -/
+def binop_exact_full : Prop :=
+  ∀ (cfg : Spec.IR.Config) (t : Ty) (op : Spec.IR.BinOp) (a b v : Int), InRange t a → InRange t b →
+    Spec.IR.evalBinop cfg (.int t) op (.int a) (.int b) = .ok (.int v) → (binopPlan (.int t) op).exec a b = .ok v
+
+example : ¬ binop_exact_full := fun h => by
+  have h1 := h {} .u8 .rol 129 1 3 (by decide) (by decide) (by rfl)
+  revert h1; decide
+
 /-- the same against the reference interpreter's `evalBinop` -/
-theorem binop_exact_evalBinop (cfg : Spec.IR.Config) (t : Ty) (op : Spec.IR.BinOp) (o : Op)
+theorem binop_exact_evalBinop_partial (cfg : Spec.IR.Config) (t : Ty) (op : Spec.IR.BinOp) (o : Op)
     (ho : op.arith? = some o) (a b : Int) (ha : InRange t a) (hb : InRange t b) (v : Spec.IR.Val)
     (h : Spec.IR.evalBinop cfg (.int t) op (.int a) (.int b) = .ok v) :
     ∃ z, v = .int z ∧ (binopPlan (.int t) op).exec a b = .ok z := by
@@ -123,7 +133,7 @@ example : (binopPlan (.int .i8) .add).exec 127 1 = .ok (-128) := by decide
 example : (binopPlan (.int .i16) .shr).exec (-32768) 15 = .ok (-1) := by decide
 example : (binopPlan (.int .u8) .and).exec 200 77 = .ok 72 := by decide
 example : binop .i8 .div (-7) 2 = some (-3) ∧ InRange .i8 (-7) ∧ InRange .i8 2 := by decide
--- `a rol b` is emitted as it stands and is not Python (not covered by `binop_exact`)
+-- `a rol b` is emitted as it stands and is not Python (excluded by the guard of `binop_exact_partial`)
 example : (binopPlan (.int .u8) .rol).exec 1 1 = .error .SyntaxError := by decide
 
 /-- 2.7 as a double is 6079859496950170 · 2^-51 -/
